@@ -3,6 +3,7 @@ import OapiVerif.Proofs.GoJsonEnc
 import OapiVerif.Proofs.Form
 import OapiVerif.Proofs.Bodies
 import OapiVerif.Gen.MediaSwitch
+import OapiVerif.Gen.BodyRules
 /-!
 C13 — Client response parsing fills the declared slot.
 
@@ -231,6 +232,55 @@ theorem C13_body_switch_translated (E : Env) (ct : Str) :
         · by_cases h5 : ct = w "text/plain"
           · simp [h1, h2, h3, h4, h5]
           · simp [h1, h2, h3, h4, h5]
+
+theorem w_inj (a b : String) (h : w a = w b) : a = b := by
+  unfold w at h
+  have hinj : ∀ l₁ l₂ : List Char, l₁.map Char.toNat = l₂.map Char.toNat → l₁ = l₂ := by
+    intro l₁
+    induction l₁ with
+    | nil => intro l₂ h; cases l₂ <;> simp_all
+    | cons x t ih =>
+      intro l₂ h
+      cases l₂ with
+      | nil => simp at h
+      | cons y u =>
+        simp only [List.map_cons, List.cons.injEq] at h
+        have hxy : x = y := by
+          apply Char.ext
+          apply UInt32.toNat_inj.mp
+          exact h.1
+        rw [hxy, ih u h.2]
+  exact String.ext (hinj _ _ h)
+
+/-- **Which bodies get a typed request builder and which a typed strict-server body, as it stands in the source**
+(`RequestBodyDefinition.IsSupportedByClient` / `IsSupported`, translated into `Gen/BodyRules.lean` on every run): the model's
+`supportedByClient` / `supported`, for every body whose tag is the text `t`. -/
+theorem C13_body_support_translated (E : Env) (b : Body) (t : String) (ht : b.tag = w t) :
+    Gen.BodyRules.supportedByClient (E.isJson b.contentType) t = b.supportedByClient E ∧
+    Gen.BodyRules.supported (E.isJson b.contentType) t = b.supported := by
+  unfold Gen.BodyRules.supportedByClient Gen.BodyRules.supported Body.supportedByClient Body.supported
+  rw [ht]
+  have e1 : (t == "Formdata") = decide (w t = w "Formdata") := by
+    by_cases h : t = "Formdata"
+    · simp [h]
+    · have : ¬ w t = w "Formdata" := fun hw => h (w_inj _ _ hw)
+      simp [h, this]
+  have e2 : (t == "Text") = decide (w t = w "Text") := by
+    by_cases h : t = "Text"
+    · simp [h]
+    · have : ¬ w t = w "Text" := fun hw => h (w_inj _ _ hw)
+      simp [h, this]
+  have e3 : (t == "") = (w t).isEmpty := by
+    by_cases h : t = ""
+    · simp [h, w]
+    · have : ¬ w t = w "" := fun hw => h (w_inj _ _ hw)
+      have hne : (w t).isEmpty = false := by
+        cases hw : w t with
+        | nil => exact absurd (by rw [hw]; rfl) this
+        | cons _ _ => rfl
+      simp [h, hne]
+  rw [e1, e2, e3]
+  exact ⟨rfl, rfl⟩
 
 def demoEnv : Env := ⟨fun ct => ct = appJson || (w "+json").isSuffixOf ct, fun _ => w "ApplicationVndApiPlusJSON"⟩
 
